@@ -251,8 +251,6 @@ def _protocol(ctx, col):
                         and a.value.id in al and a.targets[0].id not in al:
                     al.add(a.targets[0].id)
                     changed = True
-        if stepvar is not None:
-            al.add(stepvar)
 
         def is_latest(e):
             if isinstance(e, ast.Call) and isinstance(e.func, ast.Attribute) and e.func.attr == "latest_step":
